@@ -113,6 +113,7 @@ func (sc *Scenario) Run() *Outcome {
 		tg.Bare, rec, _ = NewBareEncoder(ns, from)
 		o.NS = ns
 		for i, c := range sc.Calls {
+			rec.SetTag(i)
 			res, p := tg.Exec(c)
 			if p != "" {
 				o.Problems = append(o.Problems, Problem{"panic", i, p})
@@ -191,8 +192,10 @@ func (sc *Scenario) Run() *Outcome {
 	switch sc.Mode {
 	case "seq":
 		for i, c := range sc.Calls {
+			x.Rec.SetTag(i)
 			runOne(i, c)
 		}
+		x.Rec.SetTag(-1)
 	case "conc", "forced":
 		var wg sync.WaitGroup
 		start := func(i int) {
@@ -282,6 +285,9 @@ func (o *Outcome) checkFlushed(sc *Scenario) {
 				cur = -1
 				if i, ok := byMarker[markerOf(e.Tok)]; ok {
 					cur = i
+				}
+				if e.Call >= 0 {
+					cur = e.Call
 				}
 			}
 			depth++
@@ -432,16 +438,31 @@ func (o *Outcome) deriveIDs(sc *Scenario) {
 		}
 	}
 	depth := 0
+	firstSeen := map[int]bool{}
 	for _, e := range o.Events {
 		if e.Kind != "tok" {
 			continue
 		}
 		switch e.Tok.Kind {
 		case "start":
+			// the SendX family places its id in the first start token of the call
+			// (whatever the depth, should an earlier call have left an element open)
+			if e.Call >= 0 && e.Call < len(sc.Calls) && !firstSeen[e.Call] {
+				firstSeen[e.Call] = true
+				if c := sc.Calls[e.Call]; c.Kind == "sendx" {
+					for _, a := range e.Tok.Attrs {
+						if a.Name.Local == "id" && !src[a.Value] {
+							c.NewID = a.Value
+						}
+					}
+					depth++
+					continue
+				}
+			}
 			if depth == 0 {
 				for _, a := range e.Tok.Attrs {
 					if a.Name.Local == "id" && !src[a.Value] {
-						if c := byMarker[markerOf(e.Tok)]; c != nil && c.Kind == "sendx" {
+						if c := byMarker[markerOf(e.Tok)]; e.Call < 0 && c != nil && c.Kind == "sendx" {
 							c.NewID = a.Value
 						} else {
 							o.IDs = append(o.IDs, a.Value)
@@ -466,6 +487,17 @@ func (o *Outcome) Case(sc *Scenario) string {
 		res = append(res, o.Results[i])
 	}
 	return SCase(o.NS, o.From, o.IDs, calls, o.Events, res)
+}
+
+// Wrote reports whether call i put anything into the encoder log (sequential
+// scenarios only; false if unknown).
+func (o *Outcome) Wrote(i int) bool {
+	for _, e := range o.Events {
+		if e.Call == i {
+			return true
+		}
+	}
+	return false
 }
 
 // Comparable reports whether every observed result is in the model's
